@@ -47,12 +47,12 @@ package container
 // reference (if it had one) is still the same object, and a pending early-reference factory is either still pending
 // or has been promoted. Only the frame that owns a name (the call that marked it) ends its creation, by publishing
 // it or, when creation fails, by discarding every trace of the attempt.
-//@ spec func RegRely(r SingletonComponentRegistry) bool = forall(n, string, implies(old(r.L1Dom[n]), r.L1Dom[n] && r.L1[n] == old(r.L1[n])), r.L1Dom[n]) && forall(n, string, implies(old(r.IC[n]), r.IC[n] && !r.L1Dom[n] && implies(old(r.L2Dom[n]), r.L2Dom[n] && r.L2[n] == old(r.L2[n])) && implies(old(r.L3Dom[n]), r.L2Dom[n] || r.L3Dom[n])), r.IC[n])
+//@ spec func RegRely(r SingletonComponentRegistry) bool = forall(n, string, implies(old(r.L1Dom[n]), r.L1Dom[n] && r.L1[n] == old(r.L1[n])), r.L1Dom[n], old(r.L1Dom[n])) && forall(n, string, implies(old(r.IC[n]), r.IC[n] && !r.L1Dom[n] && implies(old(r.L2Dom[n]), r.L2Dom[n] && r.L2[n] == old(r.L2[n])) && implies(old(r.L3Dom[n]), r.L2Dom[n] || r.L3Dom[n])), r.IC[n], old(r.IC[n]))
 
 // StackKept(r, x): the lifecycle state of every name that was in creation (other than x) is untouched, and reflect
 // memory only grows: what a (nested) creation guarantees to the creations above it on the stack.
-//@ spec func StackKept(r SingletonComponentRegistry, x string) bool = RTop >= old(RTop) && forall(n, string, implies(old(r.IC[n]) && n != x, St[n] == old(St[n]) && ShortCircuit[n] == old(ShortCircuit[n]) && Wrapped[n] == old(Wrapped[n]) && r.Creates[n] == old(r.Creates[n])), St[n])
-//@ spec func StackKeptAll(r SingletonComponentRegistry) bool = RTop >= old(RTop) && forall(n, string, implies(old(r.IC[n]), St[n] == old(St[n]) && ShortCircuit[n] == old(ShortCircuit[n]) && Wrapped[n] == old(Wrapped[n]) && r.Creates[n] == old(r.Creates[n])), St[n])
+//@ spec func StackKept(r SingletonComponentRegistry, x string) bool = RTop >= old(RTop) && forall(n, string, implies(old(r.IC[n]) && n != x, St[n] == old(St[n]) && ShortCircuit[n] == old(ShortCircuit[n]) && Wrapped[n] == old(Wrapped[n]) && r.Creates[n] == old(r.Creates[n])), St[n], old(St[n]), old(r.IC[n]))
+//@ spec func StackKeptAll(r SingletonComponentRegistry) bool = RTop >= old(RTop) && forall(n, string, implies(old(r.IC[n]), St[n] == old(St[n]) && ShortCircuit[n] == old(ShortCircuit[n]) && Wrapped[n] == old(Wrapped[n]) && r.Creates[n] == old(r.Creates[n])), St[n], old(St[n]), old(r.IC[n]))
 
 //@ spec func CachesUnchanged(r SingletonComponentRegistry) bool = r.L1Dom == old(r.L1Dom) && r.L1 == old(r.L1) && r.L2Dom == old(r.L2Dom) && r.L2 == old(r.L2) && r.L3Dom == old(r.L3Dom) && r.L3 == old(r.L3) && r.IC == old(r.IC)
 
